@@ -18,7 +18,7 @@ LEVEL = "exploration"
 SHARD_TIMEOUT = {"quick": 300, "thorough": 2400}
 
 LITERALS = ["a", "ab", "b", "v1.0"]
-PATHSEGS = ["a", "ab", "abc", "b", "v1.0", "v1x0", "x", "", "%61", "a%2Fb"]   # (percent escapes are matched as received, never decoded)
+PATHSEGS = ["a", "ab", "abc", "b", "v1.0", "v1x0", "x", "", "%61", "a%2Fb", "a..b", ".."]   # (percent escapes are matched as received, never decoded)
 BOUNDS = {"quick": (3, 4), "thorough": (4, 5)}   # (max pattern segments, max path segments)
 
 MATCH, NOMATCH, UNSPEC = "match", "nomatch", "unspecified"
@@ -157,7 +157,15 @@ def run_pairs(cfg, counters, violations, samples):
             continue
         parts = parse_pattern(pattern)
         router = Router()
-        route = Route("r", "GET", pattern, lambda req: None)
+        # the same route written with a trailing slash or a doubled slash is the same route (empty pattern parts are dropped)
+        spelled = pattern
+        if pattern != "/" and pi % 5 == 0:
+            spelled = pattern + "/"
+        elif pattern != "/" and pi % 5 == 1:
+            spelled = "/" + pattern[1:].replace("/", "//", 1) if "/" in pattern[1:] else "//" + pattern[1:]
+        if spelled != pattern:
+            counters.inc("patterns_spelled_with_extra_slashes")
+        route = Route("r", "GET", spelled, lambda req: None)
         router.registerRoutes([route])
         counters.inc("patterns")
         for path in paths:
@@ -378,7 +386,7 @@ def finish(tier, seed, results):
     inconclusive = []
     need(m["counters"], ["pairs", "ref_match", "ref_nomatch", "bindings_checked", "table_lookups",
                          "dispatch_404", "dispatch_routed", "lookups_between_registrations", "tables_from_resource_classes",
-                         "dispatch_websocket_route_without_upgrade"], inconclusive)
+                         "dispatch_websocket_route_without_upgrade", "patterns_spelled_with_extra_slashes"], inconclusive)
     maxp, maxs = BOUNDS[tier]
     cov = {
         "evaluations": m["evaluations"],
